@@ -37,7 +37,7 @@ ASSUMPTIONS = ['numeric oracle: exact rational comparison (fractions.Fraction bu
                '<all-in> value is the text of a Python list of str; <range-in> value is the text of a Python number '
                'literal without leading zeros; other value spellings are DONT-CARE',
                'string order is Python str order (code points)']
-INTERPRETER_FLAGS = [[], ['-O'], [], ['-bb']]
+INTERPRETER_FLAGS = [[], ['-O'], ['-X', 'dev'], ['-bb']]
 CONCURRENT = lambda case: case.get('kind') != 'twins' and (True)          # pure function of its arguments; see vlib/concurrent.py
 SHARDS = {'quick': 4, 'thorough': 16}
 MIN_DISTINCT = {'quick': 5000, 'thorough': 100000}
@@ -162,8 +162,9 @@ def build(case):
             same = ast.literal_eval(value) == lst
         except Exception:  # noqa
             same = False
-        if not same or not all(isinstance(e, str) for e in lst):
-            dc = 'value is not the text of a list of str'
+        # (members that are not str - numbers, None, nested lists, dicts - are simply never equal to a listed item)
+        if not same or not all(isinstance(e, (str, int, float, list, dict, type(None))) for e in lst):
+            dc = 'value is not the text of a list'
         if not items or not all(valid_word(w) for w in items):
             dc = 'item is not a word'
         return value, ['<all-in>'] + list(items), all(w in lst for w in items), '<all-in>', dc
@@ -555,6 +556,14 @@ def gen_allin(rng, variant):
         if items[0] in lst or not valid_word(items[0]):
             items = [gen_word(rng, 7, 9)]
         sub = 'item is a concatenation of elements'
+    if rng.random() < 0.2:
+        # the list also holds things that are not flag strings: nested lists, dicts, numbers, None
+        lst = list(lst)
+        for _ in range(rng.randrange(1, 3)):
+            lst.insert(rng.randrange(len(lst) + 1),
+                       rng.choice([[rng.choice(words)], [rng.choice(words), 'x'], {rng.choice(words): 1}, 7, 1.5, None, [],
+                                   [[rng.choice(words)]]]))
+        sub += ' (list with members that are not str)'
     return dict(kind='allin', lst=lst, items=items[:5], style=rng.choice(['repr', 'repr', 'json']),
                 seps=gen_seps(rng, 5), sub=sub)
 
@@ -820,6 +829,11 @@ def block_cases(rng, b):
             out.append(base)
     return out
 
+
+
+def REJECTED_FUNCS(ctx):
+    from oslo_utils import specs_matcher as sm
+    return [sm.match, sm.make_grammar]
 
 
 def HAMMER(ctx):
